@@ -50,21 +50,32 @@ macro_rules! ans_io_harnesses {
                 let (bulk, state) = any_coder();
                 let c = Coder::from_raw_parts(bulk, state);
                 let (spec, n) = spec_export(&bulk, state);
-                assert!(c.num_words() == n, "C18: num_words differs from the length of the exported data");
-                assert!(c.num_bits() == n * WB as usize, "C18: num_bits differs from wb * exported words");
-                assert!(c.is_empty() == (n == 0), "C18: is_empty must hold exactly when exporting returns nothing");
-                assert!(Decode::<1>::maybe_exhausted(&c) == (n == 0), "C18: maybe_exhausted must equal is_empty for the ANS coder");
-                let mut k = 0;
-                for w in c.iter_compressed() { assert!(k < n && w == spec[k], "C08/C18: iter_compressed differs from the exported data"); k += 1; }
-                assert!(k == n, "C08/C18: iter_compressed has a different length than the exported data");
+                // independent assertion groups (kx::group): 0 size queries, 1 word iterator, 2 clone, 3 export / re-import
+                let grp = group(4);
+                if grp == 0 {
+                    assert!(c.num_words() == n, "C18: num_words differs from the length of the exported data");
+                    assert!(c.num_bits() == n * WB as usize, "C18: num_bits differs from wb * exported words");
+                    assert!(c.is_empty() == (n == 0), "C18: is_empty must hold exactly when exporting returns nothing");
+                    assert!(Decode::<1>::maybe_exhausted(&c) == (n == 0), "C18: maybe_exhausted must equal is_empty for the ANS coder");
+                    return;
+                }
+                if grp == 1 {
+                    let mut k = 0;
+                    for w in c.iter_compressed() { assert!(k < n && w == spec[k], "C08/C18: iter_compressed differs from the exported data"); k += 1; }
+                    assert!(k == n, "C08/C18: iter_compressed has a different length than the exported data");
+                    return;
+                }
                 let cl = c.clone();
+                if grp == 2 {
+                    let (cb, cs) = cl.into_raw_parts();
+                    assert!(cs == state && cb.n == bulk.n, "C08: clone differs from the original");
+                    let mut i = 0; while i < bulk.n { assert!(cb.buf[i] == bulk.buf[i], "C08: clone differs from the original (bulk)"); i += 1; }
+                    return;
+                }
                 let words = match c.into_compressed() { Ok(w) => w, Err(_) => { assert!(false, "C01: export failed on a non-full backend"); return; } };
                 assert!(words.n == n, "C01/C06: exported data has the wrong length");
                 let mut i = 0; while i < n { assert!(words.buf[i] == spec[i], "C01/C06: exported words differ from bulk ++ little-endian state chunks"); i += 1; }
                 if n > 0 { assert!(words.buf[n - 1] != 0, "C01: exported data ends in a zero word"); }
-                let (cb, cs) = cl.into_raw_parts();
-                assert!(cs == state && cb.n == bulk.n, "C08: clone differs from the original");
-                let mut i = 0; while i < bulk.n { assert!(cb.buf[i] == bulk.buf[i], "C08: clone differs from the original (bulk)"); i += 1; }
                 match Coder::from_compressed(words) {
                     Ok(c2) => { let (b2, s2) = c2.into_raw_parts(); assert!(s2 == state && b2.n == bulk.n, "C01: from_compressed(into_compressed(c)) != c"); let mut i = 0; while i < b2.n { assert!(b2.buf[i] == bulk.buf[i], "C01: re-imported bulk differs"); i += 1; } }
                     Err(_) => assert!(false, "C01: re-import of exported data refused"),
@@ -99,18 +110,26 @@ macro_rules! ans_io_harnesses {
             pub fn binary_roundtrip() {
                 let data = Bulk::any_upto(NW + 1);
                 let mut c = match Coder::from_binary(data) { Ok(c) => c, Err(_) => { assert!(false, "C04: from_binary failed"); return; } };
-                assert!(!c.is_empty(), "C04/C18: a coder loaded from raw binary data is never empty");
-                assert!(c.num_valid_bits() == data.n * WB as usize, "C04/C18: num_valid_bits must equal the size of the loaded data");
+                // independent assertion groups (kx::group): 0 size queries, 1 head invariant, 2 get_binary view, 3 into_binary round trip
+                let grp = group(4);
+                if grp == 0 {
+                    assert!(!c.is_empty(), "C04/C18: a coder loaded from raw binary data is never empty");
+                    assert!(c.num_valid_bits() == data.n * WB as usize, "C04/C18: num_valid_bits must equal the size of the loaded data");
+                    return;
+                }
                 let (b0, s0) = c.clone().into_raw_parts();
-                assert!(b0.n == 0 || s0 >= (1 as S) << (SB - WB), "C01/C04: from_binary violates the state invariant (head under-filled although words remain)");
-                {
+                if grp == 1 { assert!(b0.n == 0 || s0 >= (1 as S) << (SB - WB), "C01/C04: from_binary violates the state invariant (head under-filled although words remain)"); return; }
+                if grp == 2 {
                     let g = match c.get_binary() { Ok(g) => g, Err(_) => { assert!(false, "C04/C08: get_binary failed on data loaded with from_binary"); return; } };
                     assert!(g.n == data.n, "C08: get_binary view has the wrong length");
                     let mut i = 0; while i < data.n { assert!(g.buf[i] == data.buf[i], "C08: get_binary view differs from the loaded data"); i += 1; }
                 }
-                let (b1, s1) = c.clone().into_raw_parts();
-                assert!(s1 == s0 && b1.n == b0.n, "C01/C08: dropping the get_binary view did not restore the coder");
-                let mut i = 0; while i < b0.n { assert!(b1.buf[i] == b0.buf[i], "C01/C08: dropping the get_binary view changed the bulk"); i += 1; }
+                if grp == 2 {
+                    let (b1, s1) = c.clone().into_raw_parts();
+                    assert!(s1 == s0 && b1.n == b0.n, "C01/C08: dropping the get_binary view did not restore the coder");
+                    let mut i = 0; while i < b0.n { assert!(b1.buf[i] == b0.buf[i], "C01/C08: dropping the get_binary view changed the bulk"); i += 1; }
+                    return;
+                }
                 match c.into_binary() {
                     Ok(w) => { assert!(w.n == data.n, "C04: into_binary(from_binary(d)) has a different length"); let mut i = 0; while i < data.n { assert!(w.buf[i] == data.buf[i], "C04: into_binary(from_binary(d)) != d"); i += 1; } }
                     Err(_) => assert!(false, "C04: into_binary refused data loaded with from_binary"),
